@@ -67,6 +67,12 @@ def gen_cases(tier, rng):
                 cases.append((mk(pushes + [q, "n", "k"]), "cover"))
             # empty pushes and push_front placement
             cases.append((mk(pushes + ["pb -", "pf -", "pf " + hx("xy"), "n", "n", "n", "k"]), "cover"))
+    # every small character (code < 64) as a set member / non-member, and the first code outside the range
+    for code in list(range(0, 65)) + [127, 128, 0x3f3f]:
+        ch = chr(code)
+        for bits in (1 << (code % 64), (1 << 64) - 1, ((1 << 64) - 1) ^ (1 << (code % 64)), 0):
+            for s2 in ("a" + ch + "b", ch, ch + ch, "a" + ch):
+                cases.append((mk(["pb " + hx(s2), "x %d" % bits, "x %d" % bits, "x %d" % bits, "k"]), "cover-set"))
     # ops on the empty queue
     for q in queries:
         cases.append((mk([q]), "cover-empty"))
